@@ -98,6 +98,7 @@ def world_files(world):
             "home_bad/a.yaml": "x: seven\n",
             "home_worse/sdf.yaml": "a:\n  x: seven\n",
             "home_nosub/sdf.yaml": "n: 4\n",  # names no sub-command although one is required
+            "home_badkey/sdf.yaml": "n: 4\na:\n  zzz: 1\n",  # a key that sub-command a does not have
             "home_none/.keep": "",
         }
     if world == "dcl":
@@ -496,13 +497,18 @@ def alphabet(world, which):
             _op("P", "parse_args", ["--print_config", "a"], "print_config"),
             _op("P", "parse_object", cfg_ok),
             _op("P", "parse_object", cfg_ok, "error:bad-subcommand-default-config-file", None, bad_home),
-            _op("P", "get_defaults", None, "error:default-config-file-without-subcommand", None, {"HOME": "home_nosub"}),
+            # fails INSIDE the loading of the default config file (after its values were accepted one by one)
+            _op("P", "get_defaults", None, "error:default-config-file-unknown-subcommand-key", None, {"HOME": "home_badkey"}),
             _op("P", "get_defaults"),
             _op("P", "get_defaults", None, "ok:other-default-config-file", None, {"HOME": "home_none"}),
             _op("P", "dump", cfg_ok),
             _op("S", "get_defaults"),
             _op("S", "parse_args", ["--x=5"]),
             _op("S", "parse_args", [], "error:bad-default-config-file", None, bad_home),
+        ]
+        extra += [
+            # was the failing operation of this kind until /repo accepted such a file (fail_no_subcommand=False)
+            _op("P", "get_defaults", None, "ok:default-config-file-without-subcommand", None, {"HOME": "home_nosub"}),
         ]
     elif world == "dcl":
         # "dataclass-param" = the call hands the parser a non-null value for a signature parameter whose type hint
